@@ -645,6 +645,33 @@ def rule_axis_table(ctx, py, tu):
                           "axis %s" % m.group(1), "parameter of axis %s receives the boundary mode of %s"
                           % (m.group(1), key))
     # C++: boundary_conditions_k stored at boundary_conditions[k]
+    # table form: const char* modes[3] = {bc_x, bc_y, bc_z}; for(axis..) boundary_conditions[axis] = f(modes[axis])
+    slots = 0
+    for n in walk(f.body):
+        if n.get("kind") == "VarDecl" and kids(n) and "char" in n.get("type", {}).get("qualType", "") and \
+                "[3]" in n.get("type", {}).get("qualType", ""):
+            il = strip(kids(n)[-1])
+            els = [name_of(strip(x, casts=True)) for x in kids(il)] if il.get("kind") == "InitListExpr" else []
+            if els and all(str(e_).startswith("boundary_conditions_") for e_ in els):
+                tname = cxfe.uname(n)
+                for k, e_ in enumerate(els):
+                    ctx.check(e_ == "boundary_conditions_" + "xyz"[k], R, n, f.qual, "%s[%d] = %s" % (tname, k, e_), "axis %s" % "xyz"[k],
+                              "slot %d of the per-axis table holds the mode of %s: axis %s takes another axis's boundary condition"
+                              % (k, e_, "xyz"[k]))
+                # the loop stores slot `axis` from table entry `axis`
+                for m_ in walk(f.body):
+                    if m_.get("kind") == "IfStmt":
+                        c_ = cxfe.raw_kids(m_)[0]
+                        subs = [cxfe.subscript(x) for x in walk(c_) if cxfe.subscript(x) is not None]
+                        subs = [sb for sb in subs if cxfe.uname(strip(sb[0], casts=True)) == tname]
+                        for sb in subs:
+                            for s_ in cxa.all_stores(cxfe.raw_kids(m_)[1]):
+                                sub2 = cxfe.subscript(s_.target)
+                                if sub2 and name_of(sub2[0]) == "boundary_conditions":
+                                    slots += 1
+                                    ctx.check(cxa.canon(sub2[1]) == cxa.canon(sb[1]), R, s_.node, f.qual, text(m_)[:60] + " " +
+                                              text(s_.node), "slot and table entry of the same axis", "the mode read at index %s is "
+                                              "stored in slot %s" % (cxa.canon(sb[1]), cxa.canon(sub2[1])))
     for n in walk(f.body):
         if n.get("kind") == "IfStmt":
             c = cxfe.raw_kids(n)[0]
